@@ -43,6 +43,7 @@ type WrapEvent struct {
 }
 
 type Analysis struct {
+	seq     int // evaluation order of stores (orderedLoad)
 	ctx     *Ctx
 	u       *Universe
 	top     *ssa.Function
@@ -1388,7 +1389,8 @@ func (f *Frame) store(x *ssa.Store) {
 	if p.obj.stores == nil {
 		p.obj.stores = map[string][]storeRec{}
 	}
-	p.obj.stores[p.path] = append(p.obj.stores[p.path], storeRec{val: v, instr: x, state: f.cur})
+	f.an.seq++
+	p.obj.stores[p.path] = append(p.obj.stores[p.path], storeRec{val: v, instr: x, state: f.cur, seq: f.an.seq, frame: f})
 	if p.obj.symbolic {
 		// ghost fact "this path passed a store of a non-nil value to the field" (used by the
 		// optional-callback rule); any other store to the field forgets it
@@ -1433,6 +1435,7 @@ func (f *Frame) load(x *ssa.UnOp) AV {
 				return f.an.u.symbolic(f.key+x.Name(), x.Type())
 			}
 			lo, hi, _ := intRange(x.Type())
+			abs = f.canonAff(abs)
 			return AInt{a: affSym(f.an.u.sym(fmt.Sprintf("%s[%s]", s.root.key, abs.String()), lo, hi))}
 		}
 		if isBoolType(x.Type()) {
@@ -1485,6 +1488,9 @@ func (f *Frame) loadPath(o *Obj, path string, t types.Type, at ssa.Instruction) 
 		if f.storeCount(o, path) == 1 && f.dominates(recs[0].instr, at) && !f.hasSubStores(o, path) && !f.hasPrefixStores(o, path) {
 			return recs[0].val
 		}
+		if v, ok := f.orderedLoad(o, path, at); ok {
+			return v
+		}
 		return f.an.u.symbolic(f.key+fmt.Sprintf("multi:%s%s@%s", o.key, path, valueName(at)), t)
 	}
 	// prefix store (whole struct stored, field loaded)
@@ -1506,6 +1512,9 @@ func (f *Frame) loadPath(o *Obj, path string, t types.Type, at ssa.Instruction) 
 					v = f.an.u.fieldOf(v, n)
 				}
 				_ = fieldIdx
+				return v
+			}
+			if v, ok := f.orderedLoad(o, path, at); ok {
 				return v
 			}
 			return f.an.u.symbolic(f.key+fmt.Sprintf("multi:%s%s@%s", o.key, path, valueName(at)), t)
@@ -1700,4 +1709,156 @@ func (f *Frame) mergeGhost(b *ssa.BasicBlock) map[string]ghostBuf {
 		}
 	}
 	return res
+}
+
+// orderedLoad resolves a load of o.path when several stores (to the path itself or to a
+// prefix of it) exist, possibly made in different inlined functions (a helper that builds an
+// error value and then fills in fields). Stores are evaluated in reverse post-order and
+// callees at their call, so for stores that are not inside any loop the evaluation sequence is
+// a program order. The latest store that is definitely executed on the current path (every
+// disjunct of the current state entails one disjunct of the store's state) supplies the value,
+// provided every later store is impossible on the current path and no store to a sub-path
+// interferes. Anything else is left unresolved.
+func (f *Frame) orderedLoad(o *Obj, path string, at ssa.Instruction) (AV, bool) {
+	type cand struct {
+		rec  storeRec
+		path string
+	}
+	latest := map[[2]interface{}]cand{} // per (instruction, frame): the last pass counts
+	for q, recs := range o.stores {
+		rel := q == path || q == "" || strings.HasPrefix(path, q+".") || strings.HasPrefix(q, path+".")
+		if !rel {
+			continue
+		}
+		for _, rc := range recs {
+			if rc.frame == nil || rc.instr == nil || rc.instr.Block() == nil {
+				return nil, false
+			}
+			if inLoop(rc.instr.Block()) {
+				return nil, false
+			}
+			k := [2]interface{}{rc.instr, rc.frame}
+			if old, ok := latest[k]; !ok || old.rec.seq < rc.seq {
+				latest[k] = cand{rc, q}
+			}
+		}
+	}
+	var cs []cand
+	for _, c := range latest {
+		cs = append(cs, c)
+	}
+	sort.Slice(cs, func(i, j int) bool { return cs[i].rec.seq > cs[j].rec.seq })
+	cur := f.state()
+	// a rule reading an object "as of" a return site: the state of that return site
+	if ret, ok := at.(*ssa.Return); ok {
+		for i := range f.returns {
+			if f.returns[i].instr == ret {
+				cur = f.returns[i].state
+			}
+		}
+	}
+	if len(cur) == 0 {
+		return nil, false
+	}
+	for _, c := range cs {
+		definite := true
+		for _, cj := range cur {
+			hit := false
+			for _, d := range c.rec.state {
+				if cj.entailsAll(d) {
+					hit = true
+					break
+				}
+			}
+			if !hit {
+				definite = false
+				break
+			}
+		}
+		if definite {
+			if len(c.path) > len(path) {
+				return nil, false // a later partial overwrite below the loaded path
+			}
+			v := c.rec.val
+			if c.path != path {
+				rest := strings.TrimPrefix(path[len(c.path):], ".")
+				for _, seg := range strings.Split(rest, ".") {
+					var n int
+					if _, err := fmt.Sscanf(seg, "%d", &n); err != nil {
+						return nil, false
+					}
+					v = f.an.u.fieldOf(v, n)
+				}
+			}
+			return v, true
+		}
+		// not definitely executed: it must be impossible on this path, otherwise ambiguous
+		for _, cj := range cur {
+			if consistent(cj, c.rec.state) {
+				return nil, false
+			}
+		}
+	}
+	return nil, false
+}
+
+// canonAff rewrites an index expression so that the name of an input-byte symbol does not depend
+// on whether an offset was computed inline or came back from a helper: a merged call-result
+// symbol (key contains '#') that every disjunct of the current state defines by the same
+// equation s = e is replaced by e. Sound: the equalities hold on every current path.
+func (f *Frame) canonAff(a Aff) Aff {
+	st := f.state()
+	if len(st) == 0 {
+		return a
+	}
+	for iter := 0; iter < 3; iter++ {
+		changed := false
+		for _, t := range a.terms {
+			s := t.s
+			if !strings.Contains(s.key, "#") {
+				continue
+			}
+			var def *Aff
+			okAll := true
+			for _, cj := range st {
+				var found *Aff
+				for _, at := range cj {
+					if at.op != opEQ {
+						continue
+					}
+					k := at.a.coef(s)
+					if k != 1 && k != -1 {
+						continue
+					}
+					// at.a = k*s + rest == 0  =>  s = -rest/k
+					rest := at.a.sub(affSym(s).scale(k))
+					e := rest.scale(-k)
+					mentions := false
+					for _, tt := range e.terms {
+						if strings.Contains(tt.s.key, "#") {
+							mentions = true
+						}
+					}
+					if !mentions {
+						found = &e
+						break
+					}
+				}
+				if found == nil || (def != nil && !def.equal(*found)) {
+					okAll = false
+					break
+				}
+				def = found
+			}
+			if okAll && def != nil {
+				a = a.subst(s, *def)
+				changed = true
+				break
+			}
+		}
+		if !changed {
+			break
+		}
+	}
+	return a
 }
